@@ -136,10 +136,20 @@ def _srt(xs):
     return sorted(xs, key=repr)
 
 
+
+_UNIT_QUARTERS = {"long": 16, "breve": 8, "whole": 4, "half": 2, "h": 2, "quarter": 1, "q": 1, "eighth": 0.5, "e": 0.5, "16th": 0.25, "32nd": 0.125, "64th": 0.0625}
+
+
+def _quarters_per_minute(unit, bpm):
+    """a metronome mark in whole quarters per minute: the unit's length in quarters, each dot adding half of what the previous one
+    added (1, 1.5, 1.75, 1.875), times the number (own arithmetic, not the library's conversion)"""
+    dots = unit.count(".")
+    return int(bpm * _UNIT_QUARTERS[unit.strip().rstrip(".")] * (2 - 0.5 ** dots))
+
+
 def view(score):
     """clause name -> canonical data, from the score objects only"""
     import partitura.score as sc
-    from partitura.utils.music import to_quarter_tempo
     v = {k: [] for k in ("parts_and_groups", "measures_number_name_extent", "divisions", "time_signatures_key_signatures_clefs",
                          "notes_rests_id_onset_duration_spelling_voice_staff", "symbolic_durations", "tie_links", "grace_notes",
                          "articulations_fingering_stem_fermata", "slurs_and_tuplets", "dynamics_wedges_words", "tempo_marks",
@@ -176,7 +186,7 @@ def view(score):
         v["dynamics_wedges_words"].append((pid, _srt(
             (type(o).__name__, o.text, o.start.t, o.end.t if o.end is not None else None, o.staff, bool(getattr(o, "wedge", False)), getattr(o, "raw_text", None) or o.text)
             for o in p.iter_all(sc.Direction, include_subclasses=True)) + _srt(("Words", o.text, o.start.t, None, o.staff, False, o.text) for o in p.iter_all(sc.Words))))
-        v["tempo_marks"].append((pid, _srt((o.start.t, int(to_quarter_tempo(o.unit or "q", o.bpm))) for o in p.iter_all(sc.Tempo))))
+        v["tempo_marks"].append((pid, _srt((o.start.t, _quarters_per_minute(o.unit or "q", o.bpm)) for o in p.iter_all(sc.Tempo))))
         v["repeats_endings_barline_fermatas"].append((pid, _srt((o.start.t if o.start is not None else None, o.end.t if o.end is not None else None) for o in p.iter_all(sc.Repeat)),
                                                       _srt((o.number, o.start.t if o.start is not None else None, o.end.t if o.end is not None else None) for o in p.iter_all(sc.Ending)),
                                                       _srt((o.start.t, o.ref) for o in p.iter_all(sc.Fermata) if not isinstance(o.ref, sc.GenericNote))))
